@@ -10,11 +10,11 @@ import (
 	"strings"
 	"testing"
 
-	modcrc "github.com/cupcake/rdb/crc64"
 	repocrc "github.com/alibaba/RedisShake/pkg/libs/cupcake/rdb/crc64"
 	"github.com/alibaba/RedisShake/pkg/rdb"
 	"github.com/alibaba/RedisShake/pkg/rdb/digest"
 	utils "github.com/alibaba/RedisShake/redis-shake/common"
+	modcrc "github.com/cupcake/rdb/crc64"
 	"pgregory.net/rapid"
 
 	"verif/harness/gen"
